@@ -83,7 +83,9 @@ def directed(name, quick):
         for lead in (None, 0, 3):
             for s1 in qsets1:
                 for s2 in qsets2:
-                    for rep in ((1,) if quick else (1, 2)):
+                    for rep in ((1, -2) if quick and len(s1) == 2 and len(s2) == 1 else (1,) if quick else (1, 2, -2)):
+                        # rep -2: a count of 2 that is still pending when the circuit is flattened (flattening keeps every leaf once)
+                        pending, rep = rep < 0, abs(rep)
                         P = PB.Prog()
                         main = P.new()
                         if lead is not None:
@@ -96,7 +98,7 @@ def directed(name, quick):
                             P.add(b, PB.X(q) if q != 3 else PB.M(q))
                         P.add_sub(main, a)
                         P.add_sub(main, b)
-                        if rep > 1:
+                        if rep > 1 and not pending:
                             P.act('Apply', main)
                         P.act('Flatten', main)
                         P.act('Flatten', main)
@@ -142,8 +144,8 @@ def directed(name, quick):
         # a (repeated) block that begins with two parallel nested blocks on different qubits, one of them followed inside the
         # block; unrolled / nested / copied, with and without the listing having been read before
         import itertools
-        for rep, obs, route, order, dur in itertools.product((1, 2, 3), (None, 'full', 'ops'), ('Apply', 'AddSub', 'CopyCirc'), (0, 1), (4, 50)):
-            if route == 'Apply' and rep == 1:
+        for rep, obs, route, order, dur, early in itertools.product((1, 2, 3), (None, 'full', 'ops'), ('Apply', 'AddSub', 'CopyCirc'), (0, 1), (4, 50), (False, True)):
+            if (route == 'Apply' and rep == 1) or (early and not obs):
                 continue
             P = PB.Prog()
             a = P.new()
@@ -156,8 +158,10 @@ def directed(name, quick):
             P.add(blk, PB.leaf('Ry90', [0], [[0, 'MICROWAVE']], ['global', 'MW']))
             top = P.new()
             P.add(top, PB.W(0, 2))
+            if obs and early:
+                P._step(a='Obs', c=blk, what=obs)          # the block's own listing is read before it is nested
             P.add_sub(top, blk)
-            if obs:
+            if obs and not early:
                 P._step(a='Obs', c=top, what=obs)
             if route == 'Apply':
                 P.act('Apply', top)
@@ -196,7 +200,7 @@ def directed(name, quick):
         # measurements before / inside / after a repeated block; the indices are read at some point of the build, then the
         # block is unrolled (already indexed measurements move) and the indices are read again
         import itertools
-        for rep, qb, ql, tl, lead, when, kind in itertools.product((2, 3), (0, 1), (0, 1), ('', 'a'), (False, True), (0, 1, 2), ('full', 'ops')):
+        for rep, qb, ql, tl, lead, when, kind, bare in itertools.product((2, 3), (0, 1), (0, 1), ('', 'a'), (False, True), (0, 1, 2), ('full', 'ops'), ('', 'bare')):
             P = PB.Prog()
             m = P.new()
             if lead:
@@ -206,7 +210,7 @@ def directed(name, quick):
             b = P.new(rep=rep)
             P.add(b, PB.X(qb))
             P.add(b, PB.M(qb))
-            P.add_sub(m, b)
+            P.add_sub(m, b, what=bare)
             if when == 1:
                 P._step(a='Obs', c=m, what=kind)
             P.add(m, PB.M(ql, tl))
@@ -242,7 +246,7 @@ def directed(name, quick):
 
 SOURCES = {
     'C01': ('flat', 'nest', 'chan', 'deep', 'unroll2', 'unroll3', 'sim', 'repotests', 'library'),
-    'C02': ('flat', 'nest', 'chan', 'deep', 'obsnest', 'sim', 'repotests', 'library'),
+    'C02': ('twinblocks', 'flat', 'nest', 'chan', 'deep', 'obsnest', 'sim', 'repotests', 'library'),
     'C04': ('flat', 'nest', 'nest0', 'sim', 'repotests'),
     'C05': ('kinds', 'copyapplied', 'twinops', 'twinblocks', 'nest', 'sim'),
     'C06': ('unroll', 'unroll2', 'unroll3', 'twinblocks', 'nest', 'sim', 'library'),
